@@ -189,6 +189,33 @@ def generate(rng, tier, pre=None):
             bits = range(nbits) if si < 4 else rng.sample(range(nbits), 40)
         for bit in sorted(bits):
             A("ecies.flip", [kh(b), ap, ser.hex(), haspk, str(bit)])
+        # tampering beyond single-bit flips (corruptions that cancel under xor / sum style comparisons), on the MAC
+        # and on the body: the same bit flipped in two bytes, two bytes swapped, field reversed / rotated / zeroed /
+        # all-ff, and the MAC of another ciphertext made under the same keys
+        if si < 2 or not quick:
+            hdr = 4 if excl else 37
+            fields = {"mac": (len(ser) - 32, len(ser)), "body": (hdr, len(ser) - 32)}
+            for _fname, (lo, hi) in sorted(fields.items()):
+                fld = ser[lo:hi]
+                n = hi - lo
+                variants = []
+                pairs = [(0, 1), (0, n - 1), tuple(sorted(rng.sample(range(n), 2)))]
+                for bit in range(8):
+                    for (i, j) in (pairs if (_fname == "mac" or not quick) else pairs[:1]):
+                        t = bytearray(fld); t[i] ^= 1 << bit; t[j] ^= 1 << bit
+                        variants.append(bytes(t))
+                for (i, j) in pairs:
+                    if fld[i] != fld[j]:
+                        t = bytearray(fld); t[i], t[j] = t[j], t[i]; variants.append(bytes(t))
+                variants += [fld[::-1], fld[1:] + fld[:1], fld[-1:] + fld[:-1], bytes(n), b"\xff" * n,
+                             bytes(x ^ 0xff for x in fld), bytes(x ^ 0x01 for x in fld)]
+                for v in variants:
+                    if v != fld:
+                        A("ecies.decrypt", [kh(b), ap, (ser[:lo] + v + ser[hi:]).hex(), haspk])
+            for (ah2, bp2, ser2, excl2) in sers:
+                if (ah2, bp2, excl2) == (ah, bp, excl) and ser2 != ser:
+                    A("ecies.decrypt", [kh(b), ap, (ser[:-32] + ser2[-32:]).hex(), haspk])     # MAC of another message, same keys
+                    break
         # truncations / extensions / byte-level edits
         cuts = [0, 3, 4, 35, 36, 37, 68, 69, 70, len(ser) - 33, len(ser) - 32, len(ser) - 16, len(ser) - 1]
         for c in (cuts if si < 2 or not quick else rng.sample(cuts, 3)):
